@@ -55,7 +55,9 @@ def r1(cx):
                         'the wait for the child is not dominated by the read-to-EOF: a child writing more than the '
                         'pipe capacity blocks forever while the parent waits')
     # the reader is closed after the read on the normal path, and both ends on the start-failure path
-    if not any(body.dominates(read[0][0], b) for b, _ in close_r):
+    # a close-on-drop guard holding the reader (fix 0aaa289) closes it at the end of its scope, also when the future is dropped
+    guard_r = [(b, t) for b, t, l, cons in Q.close_guard_drops(F, body) if Q.guard_holds(body, du, l, name='reader')]
+    if not any(body.dominates(read[0][0], b) for b, _ in close_r + guard_r):
         cx.violation(body.root, 'reader-not-closed', 'the read end is not closed after read-to-EOF', loc=body.loc(read[0][1]))
     early = [b for b, _ in close_r if not body.dominates(read[0][0], b)]
     earlyw = [b for b, _ in close_w if not any(body.dominates(b, r) for r, _ in read)]
